@@ -34,6 +34,8 @@ EXPLANATION = (
     "16). (RSV) reserved ranges are written with constant 0. (CHECKSUM) the UDP/SCMP checksum digest covers pseudo-header "
     "and message. (PANIC) no undischarged panic site reachable from try_encode/try_encode_to_vec of any model."
 )
+EXPLANATION_ADD = ' Additions: (CK-zero) the checksum field is written with 0 on every path before the digest reads the output buffer; (CK-narrow) every narrowing cast inside the checksum digest is lossless by interval interpretation (2^16 value partitioning makes the double carry fold exact); (RET-RS) every encode_unchecked impl returns exactly its own required_size; (ACC, encoder side) the contract of unchecked_bit_range_be_write at all 94 encoder call sites against lb(required_size).'
+EXPLANATION = EXPLANATION + EXPLANATION_ADD
 RESIDUAL = [
     "decode(encode(m)) == m and encode(decode(b)) == b on values (round trip)",
     "checksum arithmetic over all alignments (ones-complement folding)",
